@@ -86,6 +86,16 @@ Theorem C12_static_only :
 Proof. exact static_only_lifted. Qed.
 Print Assumptions C12_static_only.
 
+(** No impl of the crate has a trait argument mentioning a lifetime parameter that its self type does
+    not mention: in particular the conversion behind [unsize!] ([__CoercePtrInternal<Dst> for Src],
+    implemented for exactly [Gc] and [GcWeak]) returns a pointer with the brand of its argument. *)
+Theorem C12_impl_args_keep_brand :
+  (forall i, In i impls -> impl_args_brand_ok i = true)
+  /\ map (fun i => match i_self i with TPath n _ _ => n | _ => "?" end)
+         (brand_carrying_impls "__CoercePtrInternal" impls) = ["Gc"; "GcWeak"].
+Proof. exact (conj impl_brand_lifted unsize_impls_present). Qed.
+Print Assumptions C12_impl_args_keep_brand.
+
 Theorem C12_no_unknown_syntax : GenTypes.unknown_items = [].
 Proof. exact no_unknown. Qed.
 Print Assumptions C12_no_unknown_syntax.
@@ -128,3 +138,6 @@ Definition send_for_gc : impl_hdr :=
 
 Example C12_not_send_discriminates : not_auto_ok (send_for_gc :: impls) decls "Gc" = false.
 Proof. vm_compute. reflexivity. Qed.
+
+Example C12_impl_args_discriminates : impl_args_brand_ok rebranding_impl = false.
+Proof. exact rebranding_impl_fails. Qed.
